@@ -1,20 +1,22 @@
 #!/usr/bin/env python3
-"""usage: seeded_table.py <run_seeded log>...   -> updates seeded/<id>/meta.json (caught_by / missed_by, what_ran)
-and prints the markdown table for DESIGN section 10."""
+"""usage: seeded_table.py <run_seeded log>...
+Reads run_seeded.sh logs (later logs override earlier ones for the same (variant, check) pair), rewrites
+caught_by / missed_by / violation_classes in seeded/<id>/meta.json from the LATEST result of every pair, and prints the
+markdown table of DESIGN section 10."""
 import json
 import os
 import re
 import sys
 
+VERIF = os.path.dirname(os.path.dirname(os.path.abspath(__file__)))
 res = {}
 for path in sys.argv[1:]:
     cur = None
-    for line in open(path):
+    for line in open(path, errors="replace"):
         m = re.match(r"^=== (\S+) vs (\S+)", line)
         if m:
             cur = (m.group(1), m.group(2))
-            res.setdefault(cur, {"violations": None, "classes": [], "rc": None})
-            res[cur]["classes"] = []
+            res[cur] = {"violations": None, "classes": [], "rc": None}
             continue
         if cur is None:
             continue
@@ -29,32 +31,58 @@ for path in sys.argv[1:]:
             res[cur]["rc"] = int(m.group(1))
         if line.startswith("PATCH DOES NOT APPLY"):
             res[cur]["rc"] = "patch does not apply"
-rows = []
-for (sid, prop), r in sorted(res.items()):
-    mp = "/verif/seeded/%s/meta.json" % sid
+
+by_sid = {}
+for (sid, prop), r in res.items():
+    caught = r["rc"] == 1 or (r["violations"] or 0) > 0 or bool(r["classes"])
+    done = r["violations"] is not None or r["rc"] is not None or r["classes"]
+    if not done:
+        continue
+    by_sid.setdefault(sid, {})[prop] = (caught, sorted(set(r["classes"])), r)
+
+for sid, props in sorted(by_sid.items()):
+    mp = os.path.join(VERIF, "seeded", sid, "meta.json")
     if not os.path.exists(mp):
         continue
     meta = json.load(open(mp))
     caught = set(meta.get("caught_by") or [])
     missed = set(meta.get("missed_by") or [])
-    if r["rc"] == 1:
-        caught.add(prop)
-        missed.discard(prop)
-        meta.setdefault("violation_classes", {})[prop] = sorted(set(r["classes"]))
-    elif r["rc"] == 0:
-        if prop not in caught:
+    vc = meta.get("violation_classes") or {}
+    for prop, (c, classes, r) in props.items():
+        if c:
+            caught.add(prop)
+            missed.discard(prop)
+            if classes:
+                vc[prop] = classes
+        else:
+            caught.discard(prop)
+            vc.pop(prop, None)
             missed.add(prop)
     meta["caught_by"] = sorted(caught)
     meta["missed_by"] = sorted(missed)
-    meta["what_ran"] = "tools/trymut.sh: scratch worktree of /repo HEAD + patch, TEAAL_REPO=<worktree> /verif/dst check <ID> --tier quick (default VERIF_SEED)"
+    meta["violation_classes"] = vc
+    meta["what_ran"] = ("tools/run_seeded.sh -> tools/trymut.sh: scratch worktree of /repo HEAD + patch, TEAAL_REPO=<worktree> "
+                        "dst check <ID> --tier quick (default VERIF_SEED); latest result per (variant, check) pair")
     json.dump(meta, open(mp, "w"), indent=1)
-for sid in sorted(os.listdir("/verif/seeded")):
-    meta = json.load(open("/verif/seeded/%s/meta.json" % sid))
-    notes = ""
-    np_ = "/verif/seeded/%s/notes.md" % sid
-    cls = "; ".join("%s: %s" % (k, ", ".join(v[:2])) for k, v in (meta.get("violation_classes") or {}).items())
-    rows.append("| %s | %s | %s | %s | %s |" % (sid, meta["breaks_property"], ", ".join(meta.get("caught_by") or []) or "-",
-                                                ", ".join(meta.get("missed_by") or []) or "-", cls))
-print("| seeded variant | breaks | caught by (quick tier) | not caught by | violation classes reported |")
+
+rows = []
+n = ncaught = nown = 0
+for sid in sorted(os.listdir(os.path.join(VERIF, "seeded"))):
+    meta = json.load(open(os.path.join(VERIF, "seeded", sid, "meta.json")))
+    np_ = os.path.join(VERIF, "seeded", sid, "notes.md")
+    summ = ""
+    if os.path.exists(np_):
+        summ = open(np_).readline().strip().lstrip("# ").strip()
+        summ = re.sub(r"^(C\d\d\s*/?\s*)?(mutant\s*)?m?\d\s*[-—:]+\s*", "", summ, flags=re.I)
+        summ = summ.replace("|", "/")[:150]
+    cls = "; ".join("%s: %s" % (k, ", ".join(v[:2])) for k, v in sorted((meta.get("violation_classes") or {}).items()))
+    cb = meta.get("caught_by") or []
+    n += 1
+    ncaught += bool(cb)
+    nown += meta["breaks_property"] in cb
+    rows.append("| %s | %s | %s | %s | %s |" % (sid, summ, ", ".join(cb) or "**none**",
+                                               ", ".join(meta.get("missed_by") or []) or "-", cls))
+print("%d variants; %d caught by at least one check, %d by the check of the property they were written against\n" % (n, ncaught, nown))
+print("| variant | what was changed (first line of its notes.md) | caught by (quick tier, default VERIF_SEED) | run against, not caught | violation classes reported |")
 print("|---|---|---|---|---|")
 print("\n".join(rows))
